@@ -135,4 +135,47 @@ reg(
     thorough={"shards": 16, "timeout_s": 3 * 3600, "n_cases": 300, "n1": 20000, "stat_every": 2,
               "required_classes": ["C20.hmm", "C20.lg", "C20.hmm_sparse", "C20.hmm_T1", "C20.lg_nonsquare", "C20.lg_T1"]},
 )
+
+reg(
+    "C13",
+    "A case is (distribution among the 24 exported ones + 4 user-wrapped ones via tfp_distribution/distribution, parameters from "
+    "the documented domain, use mode among sample_shape / vmap over keys / modular_vmap / @gen site / keyword parameters). "
+    "Every run visits every distribution at least once (fixed-parameter sweep) in addition to the generated cases. Each case "
+    "evaluates logpdf on 2001 grid points (continuous) or the whole (truncated) support (discrete). Non-trivial: every case "
+    "(parameters are never the defaults). Distinct = (distribution, mode, parameters).",
+    quick={"shards": 16, "timeout_s": 1200, "n_cases": 12, "n1": 4000,
+           "required_classes": ["C13.dist_" + d for d in ["normal", "flip", "categorical", "exponential", "geometric", "multivariate_normal",
+                                                          "bernoulli", "binomial", "negative_binomial", "gamma", "dirichlet", "multinomial", "zipf",
+                                                          "tfp:Logistic", "custom:shifted_exponential"]] + ["C13.mode_" + m for m in ["sample_shape", "vmap_keys", "modular_vmap", "gen_site", "kwargs"]]},
+    thorough={"shards": 16, "timeout_s": 3 * 3600, "n_cases": 150, "n1": 20000, "required_classes": ["C13.dist_normal", "C13.dist_geometric"]},
+)
+
+reg(
+    "C19",
+    "A case is a generated program over the state IR - save(name=expr), tag_state(v1, v2, name=...), namespace(f, ns) nesting, "
+    "leaf-mode save inside a namespace, lax.scan bodies (nested scans, namespaces around and inside scans), jax.vmap / "
+    "modular_vmap around saving code, repeated names, sampling sites - in one of the configurations state(f), jit(state(f)), "
+    "seed(state(f)). Every saved value is a known affine function of (argument, scan index, lane, carry). Non-trivial: a save "
+    "under >= 2 enclosing constructs of different kinds. Distinct = hash of the case.",
+    quick={"shards": 16, "timeout_s": 1200, "n_cases": 40,
+           "required_classes": ["C19.cfg_eager", "C19.cfg_jit", "C19.cfg_seed", "C19.save_under_ns+scan", "C19.save_under_scan+ns",
+                                "C19.save_under_scan+scan", "C19.save_under_vmap", "C19.save_under_scan"]},
+    thorough={"shards": 16, "timeout_s": 3 * 3600, "n_cases": 600, "required_classes": ["C19.cfg_eager", "C19.cfg_jit", "C19.cfg_seed", "C19.save_under_ns+scan"]},
+)
+
+reg(
+    "C18",
+    "The grid n_steps in 1..max_n x burn_in in 0..n-1 x thinning in 1..max_thin x n_chains is ENUMERATED for every listed "
+    "target/kernel (mh, mala, hmc on scalar and vector-valued choices, a discrete target, and a composite kernel that saves "
+    "several diagnostics under namespaces). Each cell compares chain(...) with the un-thinned run under the same key; each "
+    "un-thinned run is checked to be a kernel iteration from the initial trace. Non-trivial: burn_in > 0 or thinning > 1. "
+    "Cells are distinct by construction (hash of target, n, b, t, chains).",
+    quick={"shards": 16, "timeout_s": 1200, "max_n": 6, "max_thin": 3, "chains": [1, 2], "exhaustive": True,
+           "targets": ["cont_mh", "cont_composite", "vec_hmc", "disc_mh"],
+           "required_classes": ["C18.target_cont_mh", "C18.target_cont_composite", "C18.target_vec_hmc", "C18.target_disc_mh", "C18.chains_1", "C18.chains_2", "C18.full_runs_checked"]},
+    thorough={"shards": 16, "timeout_s": 3 * 3600, "max_n": 12, "max_thin": 4, "chains": [1, 2, 3], "exhaustive": True,
+              "targets": ["cont_mh", "cont_mala", "cont_hmc", "cont_composite", "vec_mala", "vec_hmc", "disc_mh"],
+              "required_classes": ["C18.target_cont_mh", "C18.chains_1", "C18.chains_3"]},
+    exhaustive=True,
+)
 NOT_CLAIMED = {}
